@@ -39,3 +39,20 @@ func VerifVBIReadFrom(r io.Reader) (value uint64, n int64, err error) {
 	n, err = v.ReadFrom(r)
 	return uint64(v), n, err
 }
+
+// VerifVBIUnmarshalReuse is VerifVBIUnmarshal with a receiver that already
+// holds prev, as a decoder loop that reuses one variable would have.
+func VerifVBIUnmarshalReuse(prev uint32, data []byte) (value uint64, width int, err error) {
+	v := vbint(prev)
+	if err = v.UnmarshalBinary(data); err != nil {
+		return 0, 0, err
+	}
+	return uint64(v), v.width(), nil
+}
+
+// VerifVBIReadFromReuse is VerifVBIReadFrom with a receiver that already holds prev.
+func VerifVBIReadFromReuse(prev uint32, r io.Reader) (value uint64, n int64, err error) {
+	v := vbint(prev)
+	n, err = v.ReadFrom(r)
+	return uint64(v), n, err
+}
